@@ -347,10 +347,25 @@ impl SizedOutput {
     fn flush(&mut self) -> Result {
         match &self.out {
             OutputBuffer::Mmap(_) => {}
-            OutputBuffer::InMemory(bytes) => self
-                .file
-                .write_all(bytes)
-                .with_context(|| format!("Failed to write to {}", self.path.display()))?,
+            OutputBuffer::InMemory(bytes) => {
+                self.file
+                    .write_all(bytes)
+                    .with_context(|| format!("Failed to write to {}", self.path.display()))?;
+
+                // When we allocated the buffer, we ignored any failure to set the length of the
+                // file, since that's expected for things like /dev/null. If we're updating a
+                // regular file in place and it previously held more data than we just wrote, then
+                // it needs to end where our data ends, otherwise we'd report success for a file
+                // that still has part of the old contents at the end.
+                if let Ok(metadata) = self.file.metadata()
+                    && metadata.is_file()
+                    && metadata.len() != bytes.len() as u64
+                {
+                    self.file
+                        .set_len(bytes.len() as u64)
+                        .with_context(|| format!("Failed to truncate {}", self.path.display()))?;
+                }
+            }
         }
 
         // Making the file executable is best-effort only. For example if we're writing to a pipe or
